@@ -138,11 +138,17 @@ fn byte_offset_of(source: &str, line: u32, col: u32) -> usize {
         .sum();
     // `col` counts characters, not bytes: convert it within the line.
     let line_text = lines.next().unwrap_or("");
+    // The compiler drops a leading byte-order mark before it assigns columns;
+    // the file read back from disk still begins with it.
+    let (bom, line_text) = match line_text.strip_prefix('\u{feff}') {
+        Some(rest) if line == 1 => ('\u{feff}'.len_utf8(), rest),
+        _ => (0, line_text),
+    };
     let col_bytes = line_text
         .char_indices()
         .nth(col as usize)
         .map_or(line_text.len(), |(i, _)| i);
-    (line_start + col_bytes).min(source.len())
+    (line_start + bom + col_bytes).min(source.len())
 }
 
 /// Context information for a failed assertion.
